@@ -83,12 +83,12 @@ func c51Start(t *testing.T) *c51World {
 	empty := `{"Version":"0","Config":{}}`
 	rig, err := sys.Start(sys.Options{Modules: []string{"mod_block", "mod_auth_basic", "mod_auth_jwt", "mod_secure_link"},
 		Files: map[string]string{
-			"mod_auth_basic/auth_basic_rule.data":   empty,
-			"mod_auth_jwt/auth_jwt_rule.data":       empty,
-			"mod_secure_link/mod_secure_link.conf":  "[Basic]\nDataPath = mod_secure_link/secure_link.data\n\n[Log]\nOpenDebug = false\n",
-			"mod_secure_link/secure_link.data":      empty,
-			"mod_block/block_rules.data":            empty,
-			"mod_block/ip_blocklist.data":           "192.168.1.250\n",
+			"mod_auth_basic/auth_basic_rule.data":  empty,
+			"mod_auth_jwt/auth_jwt_rule.data":      empty,
+			"mod_secure_link/mod_secure_link.conf": "[Basic]\nDataPath = mod_secure_link/secure_link.data\n\n[Log]\nOpenDebug = false\n",
+			"mod_secure_link/secure_link.data":     empty,
+			"mod_block/block_rules.data":           empty,
+			"mod_block/ip_blocklist.data":          "192.168.1.250\n",
 		},
 		Data: data})
 	if err != nil {
